@@ -246,6 +246,17 @@ def f_vec(rng, u):
     return wrap, rules, dict(LBr="[", RBr="]", Colon=":"), "vec-%s%s-%s" % (direction, "-empty" if empty else "", elem)
 
 
+def f_vec_boxed(rng, u):
+    """a @vec rule whose elements contain the vector again (element type is boxed: Vec<Box<El>>), the element rule
+    being reached first from the start rule"""
+    el, v = "BEl" + u, "BVec" + u
+    direction = rng.choice(["left", "right"])
+    rec = Alt([R(v), R(el)]) if direction == "left" else Alt([R(el), R(v)])
+    rules = [Rule(el, [Alt([R("Num")]), Alt([R("LPar"), R(v), R("RPar")])]),
+             Rule(v, [rec, Alt([R(el)])], ann="vec")]
+    return el, rules, dict(LPar="(", RPar=")"), "vec-boxed-%s" % direction
+
+
 def f_opt_enum(rng, u):
     n = "MaybeE" + u
     w = "MaybeW" + u
@@ -328,7 +339,7 @@ def f_nested_opt_vec(rng, u):
                         Alt([R(n)])])], dict(LPar="(", RPar=")", Comma=",", Colon=":"), "nested-call-args"
 
 
-FEATURES = [f_enum_plain, f_ref_chain, f_struct, f_optional, f_repeat, f_vec, f_opt_enum, f_struct_empty,
+FEATURES = [f_enum_plain, f_ref_chain, f_struct, f_optional, f_repeat, f_vec, f_vec_boxed, f_opt_enum, f_struct_empty,
             f_opt_ref, f_expr, f_rec_mutual, f_rec_struct, f_rec_optref, f_same_choice, f_kinds,
             f_nested_opt_vec]
 
@@ -407,6 +418,10 @@ def handwritten():
         ["a 1 b", "7"])
     add("unreachable-own-terminals", "S: Item+;\nItem: Id | Num;\nPair: Id Up;\nterminals\nId: /[a-z]+/;\nNum: /\\d+/;\n"
         "Up: /[A-Z]+/;\n", ["a 1 b", "7"])
+    add("vec-right-boxed", "S: Item;\nItem: Num | '(' Items ')';\n@vec Items: Item Items | Item;\nterminals\nNum: /\\d+/;\n"
+        "LP: '(';\nRP: ')';\n", ["( 1 2 3 )", "( 1 ( 2 3 ) 4 )", "5"])
+    add("vec-left-boxed", "S: Item;\nItem: Num | '(' Items ')';\n@vec Items: Items Item | Item;\nterminals\nNum: /\\d+/;\n"
+        "LP: '(';\nRP: ')';\n", ["( 1 2 3 )", "( 1 ( 2 3 ) 4 )", "5"])
     add("vec-left", "@vec A: A B | B;\nB: Num;\nterminals\nNum: /\\d+/;\n", ["1 2 3", "7", "4 5"])
     add("vec-right", "@vec A: B A | B;\nB: Num;\nterminals\nNum: /\\d+/;\n", ["1 2 3", "7", "4 5"])
     add("vec-left-direct", "@vec A: A Num | Num;\nterminals\nNum: /\\d+/;\n", ["1 2 3", "9"])
